@@ -129,7 +129,7 @@ func (c *cmpCtx) sideOf(e ast.Expr) (*sideExpr, error) {
 			if err != nil {
 				return nil, err
 			}
-			if in.path != "" || in.abs {
+			if in.path != "" || in.abs || in.key {
 				return nil, c.errf(e, "unsupported index expression %s", src(c.fset, e))
 			}
 			return &sideExpr{side: in.side, path: id.Name + "[]"}, nil
@@ -174,6 +174,9 @@ func (c *cmpCtx) sideOf(e ast.Expr) (*sideExpr, error) {
 				if err != nil {
 					return nil, err
 				}
+				if in.key || in.abs {
+					return nil, c.errf(e, "unsupported argument of fmt.Sprint")
+				}
 				return &sideExpr{side: in.side, path: "Sprint(" + in.path + ")"}, nil
 			}
 			// zero-argument method call
@@ -181,6 +184,9 @@ func (c *cmpCtx) sideOf(e ast.Expr) (*sideExpr, error) {
 				in, err := c.sideOf(sel.X)
 				if err != nil {
 					return nil, err
+				}
+				if in.key || in.abs {
+					return nil, c.errf(e, "unsupported method call %s", src(c.fset, e))
 				}
 				return &sideExpr{side: in.side, path: joinPath(in.path, sel.Sel.Name+"()")}, nil
 			}
@@ -516,7 +522,7 @@ func (c *cmpCtx) finalReturn(e ast.Expr) ([]keyDesc, error) {
 			if err != nil {
 				return nil, err
 			}
-			if a0.path != "" || a1.path != "" || a0.abs || a1.abs || a0.side == a1.side {
+			if a0.path != "" || a1.path != "" || a0.abs || a1.abs || a0.key || a1.key || a0.side == a1.side {
 				return nil, c.errf(e, "comparator call must pass the two elements themselves")
 			}
 			ps := fd.Type.Params.List
@@ -640,48 +646,412 @@ func paramNames(ft *ast.FuncType) []string {
 	return names
 }
 
-// lessMethod translates `func (r T) Less(i, j int) bool`; the elements are elemExpr(i), elemExpr(j)
-// where the element expression is found by pattern: the IndexExpr whose index is the parameter.
-func lessMethod(fset *token.FileSet, file *ast.File, funcs map[string]*ast.FuncDecl, fd *ast.FuncDecl, kind string) ([]variant, error) {
-	ps := paramNames(fd.Type)
-	if len(ps) != 2 {
-		return nil, fmt.Errorf("%s: Less must take two parameters", fset.Position(fd.Pos()))
-	}
-	rn := recvName(fd)
-	isElem := func(p string) func(ast.Expr) bool {
-		return func(x ast.Expr) bool {
-			ix, ok := x.(*ast.IndexExpr)
-			if !ok {
-				return false
+// sorterInfo describes the sort.Interface implementation a sorting function hands to sort.Sort.
+//
+//	slice style     type edgeList []*Edge                  elements are recv[i]
+//	struct style    type tags struct{ t []*Tag; … }        elements are recv.t[i]
+//	key style       type edgeSorter struct{ edges []*Edge; keys []edgeSortKey }
+//	                elements are recv.edges[i]; recv.keys[i].f stands for the expression f was
+//	                computed from where the sorter is built — accepted only if the extractor can show
+//	                that keys[k] is always the key of edges[k] (built in lockstep, swapped in lockstep,
+//	                touched nowhere else)
+type sorterInfo struct {
+	typeName  string
+	less      *ast.FuncDecl
+	elemField string
+	keyField  string
+	keyType   string
+	keyDefs   map[string]*sideExpr
+}
+
+type fileIndex struct {
+	fset    *token.FileSet
+	file    *ast.File
+	funcs   map[string]*ast.FuncDecl            // package-level functions
+	methods map[string]map[string]*ast.FuncDecl // receiver type -> method name -> decl
+	types   map[string]*ast.TypeSpec
+}
+
+func indexFile(fset *token.FileSet, file *ast.File) *fileIndex {
+	ix := &fileIndex{fset: fset, file: file, funcs: map[string]*ast.FuncDecl{}, methods: map[string]map[string]*ast.FuncDecl{}, types: map[string]*ast.TypeSpec{}}
+	for _, d := range file.Decls {
+		switch x := d.(type) {
+		case *ast.FuncDecl:
+			if x.Body == nil {
+				continue
 			}
-			id, ok := ix.Index.(*ast.Ident)
-			if !ok || id.Name != p {
-				return false
+			if x.Recv == nil {
+				ix.funcs[x.Name.Name] = x
+				continue
 			}
-			// base must be the receiver or a field of the receiver
-			base := ix.X
-			for {
-				if s, ok := base.(*ast.SelectorExpr); ok {
-					base = s.X
-					continue
+			r := recvTypeName(x)
+			if ix.methods[r] == nil {
+				ix.methods[r] = map[string]*ast.FuncDecl{}
+			}
+			ix.methods[r][x.Name.Name] = x
+		case *ast.GenDecl:
+			if x.Tok == token.TYPE {
+				for _, sp := range x.Specs {
+					ts := sp.(*ast.TypeSpec)
+					ix.types[ts.Name.Name] = ts
 				}
-				break
 			}
-			b, ok := base.(*ast.Ident)
-			return ok && b.Name == rn
 		}
 	}
-	c := &cmpCtx{fset: fset, file: file, locals: map[string]*sideExpr{}, funcs: funcs, projOf: projTable(kind), isA: isElem(ps[0]), isB: isElem(ps[1])}
+	return ix
+}
+
+func isSortCall(fset *token.FileSet, call *ast.CallExpr) bool {
+	f := src(fset, call.Fun)
+	return f == "sort.Sort" || f == "sort.Stable"
+}
+
+// findSorter locates, in the sorting function fn, the value handed to sort.Sort and analyses its type.
+func findSorter(ix *fileIndex, fn *ast.FuncDecl) (*sorterInfo, error) {
+	fset := ix.fset
+	at := func(n ast.Node) string { return fset.Position(n.Pos()).String() }
+	var sortArg *ast.Ident
+	nsort := 0
+	ast.Inspect(fn.Body, func(n ast.Node) bool {
+		if call, ok := n.(*ast.CallExpr); ok && isSortCall(fset, call) && len(call.Args) == 1 {
+			nsort++
+			sortArg, _ = call.Args[0].(*ast.Ident)
+		}
+		return true
+	})
+	if nsort != 1 || sortArg == nil {
+		return nil, fmt.Errorf("%s: %s must call sort.Sort exactly once, on a local variable", at(fn), fn.Name.Name)
+	}
+	x := sortArg.Name
+	// the definition of x
+	var def ast.Expr
+	ndef := 0
+	ast.Inspect(fn.Body, func(n ast.Node) bool {
+		if as, ok := n.(*ast.AssignStmt); ok && len(as.Lhs) == 1 && len(as.Rhs) == 1 && as.Tok == token.DEFINE {
+			if id, ok := as.Lhs[0].(*ast.Ident); ok && id.Name == x {
+				ndef++
+				def = as.Rhs[0]
+			}
+		}
+		return true
+	})
+	if ndef != 1 {
+		return nil, fmt.Errorf("%s: the value sorted in %s must be defined by exactly one := statement", at(fn), fn.Name.Name)
+	}
+	si := &sorterInfo{}
+	var lit *ast.CompositeLit
+	switch d := def.(type) {
+	case *ast.CallExpr: // make(T, …) or T(x)
+		if id, ok := d.Fun.(*ast.Ident); ok && id.Name == "make" && len(d.Args) >= 1 {
+			if t, ok := d.Args[0].(*ast.Ident); ok {
+				si.typeName = t.Name
+			}
+		} else if id, ok := d.Fun.(*ast.Ident); ok && len(d.Args) == 1 {
+			si.typeName = id.Name // conversion
+		}
+	case *ast.CompositeLit:
+		if t, ok := d.Type.(*ast.Ident); ok {
+			si.typeName = t.Name
+			lit = d
+		}
+	}
+	ts := ix.types[si.typeName]
+	if si.typeName == "" || ts == nil {
+		return nil, fmt.Errorf("%s: cannot determine the type of the value sorted in %s", at(fn), fn.Name.Name)
+	}
+	si.less = ix.methods[si.typeName]["Less"]
+	if si.less == nil {
+		return nil, fmt.Errorf("%s: type %s has no Less method", at(ts), si.typeName)
+	}
+	switch t := ts.Type.(type) {
+	case *ast.ArrayType:
+		if t.Len != nil {
+			return nil, fmt.Errorf("%s: sorter type %s is an array", at(ts), si.typeName)
+		}
+		return si, nil
+	case *ast.StructType:
+		var slices []*ast.Field
+		for _, f := range t.Fields.List {
+			if a, ok := f.Type.(*ast.ArrayType); ok && a.Len == nil {
+				if len(f.Names) != 1 {
+					return nil, fmt.Errorf("%s: unsupported field list in sorter type %s", at(ts), si.typeName)
+				}
+				slices = append(slices, f)
+			}
+		}
+		isKeyStruct := func(f *ast.Field) (string, bool) {
+			id, ok := f.Type.(*ast.ArrayType).Elt.(*ast.Ident)
+			if !ok {
+				return "", false
+			}
+			kt, ok := ix.types[id.Name]
+			if !ok {
+				return "", false
+			}
+			_, ok = kt.Type.(*ast.StructType)
+			return id.Name, ok
+		}
+		switch len(slices) {
+		case 1:
+			si.elemField = slices[0].Names[0].Name
+			return si, nil
+		case 2:
+			for k, f := range slices {
+				if kt, ok := isKeyStruct(f); ok {
+					if _, both := isKeyStruct(slices[1-k]); both {
+						break
+					}
+					si.keyField, si.keyType = f.Names[0].Name, kt
+					si.elemField = slices[1-k].Names[0].Name
+				}
+			}
+		}
+		if si.keyField == "" {
+			return nil, fmt.Errorf("%s: sorter type %s: cannot tell the element slice from a key slice", at(ts), si.typeName)
+		}
+	default:
+		return nil, fmt.Errorf("%s: unsupported sorter type %s", at(ts), si.typeName)
+	}
+
+	// ---- key style: show that keys[k] is always the key of elems[k] ----
+	if lit == nil {
+		return nil, fmt.Errorf("%s: a sorter with precomputed keys must be built by a composite literal", at(fn))
+	}
+	// (1) built empty
+	for _, el := range lit.Elts {
+		kv, ok := el.(*ast.KeyValueExpr)
+		if !ok {
+			return nil, fmt.Errorf("%s: the %s literal must use field names", at(lit), si.typeName)
+		}
+		name := src(fset, kv.Key)
+		if name != si.elemField && name != si.keyField {
+			continue
+		}
+		empty := false
+		switch v := kv.Value.(type) {
+		case *ast.Ident:
+			empty = v.Name == "nil"
+		case *ast.CallExpr:
+			if id, ok := v.Fun.(*ast.Ident); ok && id.Name == "make" && len(v.Args) >= 2 {
+				if bl, ok := v.Args[1].(*ast.BasicLit); ok && bl.Value == "0" {
+					empty = true
+				}
+			}
+		}
+		if !empty {
+			return nil, fmt.Errorf("%s: field %s of the %s literal must start empty", at(kv), name, si.typeName)
+		}
+	}
+	// (2) no other literal of the type, no other method
+	nlit := 0
+	ast.Inspect(ix.file, func(n ast.Node) bool {
+		if cl, ok := n.(*ast.CompositeLit); ok {
+			if id, ok := cl.Type.(*ast.Ident); ok && id.Name == si.typeName {
+				nlit++
+			}
+		}
+		return true
+	})
+	if nlit != 1 {
+		return nil, fmt.Errorf("%s: %s values are built in %d places; exactly one construction site can be traced", at(ts), si.typeName, nlit)
+	}
+	for name := range ix.methods[si.typeName] {
+		if name != "Len" && name != "Less" && name != "Swap" {
+			return nil, fmt.Errorf("%s: sorter type %s has a method %s besides Len/Less/Swap", at(ts), si.typeName, name)
+		}
+	}
+	// (3) Swap exchanges both slices at the same indices
+	swap := ix.methods[si.typeName]["Swap"]
+	if swap == nil {
+		return nil, fmt.Errorf("%s: type %s has no Swap method", at(ts), si.typeName)
+	}
+	sp := paramNames(swap.Type)
+	rn := recvName(swap)
+	if len(sp) != 2 || rn == "" || len(swap.Body.List) != 2 {
+		return nil, fmt.Errorf("%s: Swap of %s must consist of the two lockstep exchanges", at(swap), si.typeName)
+	}
+	want := map[string]bool{}
+	for _, f := range []string{si.elemField, si.keyField} {
+		a := fmt.Sprintf("%s.%s[%s]", rn, f, sp[0])
+		b := fmt.Sprintf("%s.%s[%s]", rn, f, sp[1])
+		want[a+", "+b+" = "+b+", "+a] = true
+	}
+	for _, st := range swap.Body.List {
+		txt := strings.Join(strings.Fields(src(fset, st)), " ")
+		if !want[txt] {
+			return nil, fmt.Errorf("%s: Swap of %s: unexpected statement %q", at(st), si.typeName, txt)
+		}
+		delete(want, txt)
+	}
+	if len(want) != 0 {
+		return nil, fmt.Errorf("%s: Swap of %s does not exchange both slices", at(swap), si.typeName)
+	}
+	// (4) in the constructing function: x is only appended to in lockstep, sorted, and its element
+	// slice read
+	var appends []*ast.AssignStmt
+	var bad error
+	ast.Inspect(fn.Body, func(n ast.Node) bool {
+		switch s := n.(type) {
+		case *ast.AssignStmt:
+			for _, l := range s.Lhs {
+				if id := baseIdent(l); id != nil && id.Name == x {
+					if _, plain := l.(*ast.Ident); plain {
+						if s.Tok != token.DEFINE {
+							bad = fmt.Errorf("%s: the sorter is reassigned", at(s))
+						}
+						continue // the definition itself
+					}
+					appends = append(appends, s)
+				}
+			}
+		case *ast.IncDecStmt:
+			if id := baseIdent(s.X); id != nil && id.Name == x {
+				bad = fmt.Errorf("%s: unexpected modification of the sorter", at(s))
+			}
+		case *ast.CallExpr:
+			for _, a := range s.Args {
+				if id, ok := a.(*ast.Ident); ok && id.Name == x && !isSortCall(fset, s) {
+					bad = fmt.Errorf("%s: the sorter is passed to %s", at(s), src(fset, s.Fun))
+				}
+				if u, ok := a.(*ast.UnaryExpr); ok && u.Op == token.AND {
+					if id := baseIdent(u.X); id != nil && id.Name == x {
+						bad = fmt.Errorf("%s: the address of (part of) the sorter is taken", at(s))
+					}
+				}
+			}
+		}
+		return true
+	})
+	if bad != nil {
+		return nil, bad
+	}
+	if len(appends) != 2 {
+		return nil, fmt.Errorf("%s: the sorter's slices must be extended by exactly two append statements (found %d assignments)", at(fn), len(appends))
+	}
+	// both in one statement list, consecutive
+	var block []ast.Stmt
+	ast.Inspect(fn.Body, func(n ast.Node) bool {
+		if b, ok := n.(*ast.BlockStmt); ok {
+			for k := 0; k+1 < len(b.List); k++ {
+				if (b.List[k] == ast.Stmt(appends[0]) && b.List[k+1] == ast.Stmt(appends[1])) || (b.List[k] == ast.Stmt(appends[1]) && b.List[k+1] == ast.Stmt(appends[0])) {
+					block = b.List
+				}
+			}
+		}
+		return true
+	})
+	if block == nil {
+		return nil, fmt.Errorf("%s: the two appends to the sorter must be consecutive statements of one block", at(appends[0]))
+	}
+	var elemVar string
+	var keyLit *ast.CompositeLit
+	for _, as := range appends {
+		if len(as.Lhs) != 1 || len(as.Rhs) != 1 || as.Tok != token.ASSIGN {
+			return nil, fmt.Errorf("%s: unsupported assignment to the sorter", at(as))
+		}
+		call, ok := as.Rhs[0].(*ast.CallExpr)
+		if !ok || src(fset, call.Fun) != "append" || len(call.Args) != 2 || call.Ellipsis.IsValid() || src(fset, call.Args[0]) != src(fset, as.Lhs[0]) {
+			return nil, fmt.Errorf("%s: assignment to the sorter is not `f = append(f, one element)`", at(as))
+		}
+		switch src(fset, as.Lhs[0]) {
+		case x + "." + si.elemField:
+			id, ok := call.Args[1].(*ast.Ident)
+			if !ok {
+				return nil, fmt.Errorf("%s: the appended element must be a variable", at(as))
+			}
+			elemVar = id.Name
+		case x + "." + si.keyField:
+			cl, ok := call.Args[1].(*ast.CompositeLit)
+			if !ok || src(fset, cl.Type) != si.keyType {
+				return nil, fmt.Errorf("%s: the appended key must be a %s literal", at(as), si.keyType)
+			}
+			keyLit = cl
+		default:
+			return nil, fmt.Errorf("%s: unexpected assignment to the sorter", at(as))
+		}
+	}
+	if elemVar == "" || keyLit == nil {
+		return nil, fmt.Errorf("%s: the element and its key must be appended together", at(appends[0]))
+	}
+	// each key field is an expression of the appended element
+	kc := &cmpCtx{fset: fset, file: ix.file, locals: map[string]*sideExpr{}, funcs: ix.funcs, projOf: func(p string) (string, error) { return p, nil },
+		isA: func(e ast.Expr) bool { id, ok := e.(*ast.Ident); return ok && id.Name == elemVar },
+		isB: func(ast.Expr) bool { return false }}
+	si.keyDefs = map[string]*sideExpr{}
+	for _, el := range keyLit.Elts {
+		kv, ok := el.(*ast.KeyValueExpr)
+		if !ok {
+			return nil, fmt.Errorf("%s: the %s literal must use field names", at(keyLit), si.keyType)
+		}
+		se, err := kc.sideOf(kv.Value)
+		if err != nil {
+			// a field whose definition cannot be traced is simply not defined: reading it in Less fails
+			continue
+		}
+		si.keyDefs[src(fset, kv.Key)] = &sideExpr{path: se.path, abs: se.abs}
+	}
+	return si, nil
+}
+
+// lessMethod translates the Less method of the sorter used by the sorting function fn.
+func lessMethod(ix *fileIndex, fn *ast.FuncDecl, kind string) ([]variant, *sorterInfo, error) {
+	fset := ix.fset
+	si, err := findSorter(ix, fn)
+	if err != nil {
+		return nil, nil, err
+	}
+	fd := si.less
+	ps := paramNames(fd.Type)
+	if len(ps) != 2 {
+		return nil, nil, fmt.Errorf("%s: Less must take two parameters", fset.Position(fd.Pos()))
+	}
+	rn := recvName(fd)
+	// recv[p] (slice style) or recv.field[p]
+	indexOf := func(x ast.Expr, field, p string) bool {
+		ix, ok := x.(*ast.IndexExpr)
+		if !ok {
+			return false
+		}
+		id, ok := ix.Index.(*ast.Ident)
+		if !ok || id.Name != p {
+			return false
+		}
+		if field == "" {
+			b, ok := ix.X.(*ast.Ident)
+			return ok && b.Name == rn
+		}
+		sel, ok := ix.X.(*ast.SelectorExpr)
+		if !ok || sel.Sel.Name != field {
+			return false
+		}
+		b, ok := sel.X.(*ast.Ident)
+		return ok && b.Name == rn
+	}
+	c := &cmpCtx{fset: fset, file: ix.file, locals: map[string]*sideExpr{}, funcs: ix.funcs, projOf: projTable(kind),
+		isA: func(x ast.Expr) bool { return indexOf(x, si.elemField, ps[0]) },
+		isB: func(x ast.Expr) bool { return indexOf(x, si.elemField, ps[1]) }}
+	if si.keyField != "" {
+		c.keyDefs, c.keyType = si.keyDefs, si.keyType
+		c.keyRef = func(x ast.Expr) (int, bool) {
+			if indexOf(x, si.keyField, ps[0]) {
+				return 0, true
+			}
+			if indexOf(x, si.keyField, ps[1]) {
+				return 1, true
+			}
+			return 0, false
+		}
+	}
 	vs, err := c.block(fd.Body.List, []variant{{}}, true)
 	if err != nil {
-		return nil, err
+		return nil, nil, err
 	}
 	for _, v := range vs {
 		if !v.done {
-			return nil, fmt.Errorf("%s: comparator has no final return", fset.Position(fd.Pos()))
+			return nil, nil, fmt.Errorf("%s: comparator has no final return", fset.Position(fd.Pos()))
 		}
 	}
-	return vs, nil
+	return vs, si, nil
 }
 
 func funcLitComparator(fset *token.FileSet, file *ast.File, funcs map[string]*ast.FuncDecl, fl *ast.FuncLit, kind string) ([]keyDesc, error) {
@@ -910,45 +1280,34 @@ func genComparators(e *Env) (string, error) {
 	if err != nil {
 		return "", err
 	}
-	funcs := map[string]*ast.FuncDecl{}
-	var tagsLess, edgeLess, nsort *ast.FuncDecl
-	for _, d := range file.Decls {
-		fd, ok := d.(*ast.FuncDecl)
-		if !ok || fd.Body == nil {
-			continue
-		}
-		if fd.Recv == nil {
-			funcs[fd.Name.Name] = fd
-			continue
-		}
-		switch recvTypeName(fd) + "." + fd.Name.Name {
-		case "tags.Less":
-			tagsLess = fd
-		case "edgeList.Less":
-			edgeLess = fd
-		case "Nodes.Sort":
-			nsort = fd
-		}
-	}
-	if tagsLess == nil || edgeLess == nil || nsort == nil {
-		return "", fmt.Errorf("%s: tags.Less, edgeList.Less or Nodes.Sort not found", rel)
+	ix := indexFile(fset, file)
+	funcs := ix.funcs
+	sortTags := ix.funcs["SortTags"]
+	edgeSort := ix.methods["EdgeMap"]["Sort"]
+	nsort := ix.methods["Nodes"]["Sort"]
+	if sortTags == nil || edgeSort == nil || nsort == nil {
+		return "", fmt.Errorf("%s: SortTags, EdgeMap.Sort or Nodes.Sort not found", rel)
 	}
 	var cmps []comparator
-	vs, err := lessMethod(fset, file, funcs, tagsLess, "tag")
+	vs, si, err := lessMethod(ix, sortTags, "tag")
 	if err != nil {
 		return "", err
 	}
 	for _, v := range vs {
-		cmps = append(cmps, comparator{name: "tags_Less" + v.suffix, kind: "tag", keys: v.keys, goName: "tags.Less" + strings.ReplaceAll(v.suffix, "__", " | "), pos: fset.Position(tagsLess.Pos()).String()})
+		cmps = append(cmps, comparator{name: "tags_Less" + v.suffix, kind: "tag", keys: v.keys, goName: si.typeName + ".Less" + strings.ReplaceAll(v.suffix, "__", " | "), pos: fset.Position(si.less.Pos()).String()})
 	}
-	vs, err = lessMethod(fset, file, funcs, edgeLess, "edge")
+	vs, si, err = lessMethod(ix, edgeSort, "edge")
 	if err != nil {
 		return "", err
 	}
 	if len(vs) != 1 {
-		return "", fmt.Errorf("%s: edgeList.Less has configuration variants", fset.Position(edgeLess.Pos()))
+		return "", fmt.Errorf("%s: the edge comparator has configuration variants", fset.Position(si.less.Pos()))
 	}
-	cmps = append(cmps, comparator{name: "edgeList_Less", kind: "edge", keys: vs[0].keys, goName: "edgeList.Less", pos: fset.Position(edgeLess.Pos()).String()})
+	style := ""
+	if si.keyField != "" {
+		style = ", keys precomputed in EdgeMap.Sort"
+	}
+	cmps = append(cmps, comparator{name: "edgeList_Less", kind: "edge", keys: vs[0].keys, goName: si.typeName + ".Less" + style, pos: fset.Position(si.less.Pos()).String()})
 	ncs, err := nodesSort(fset, file, funcs, nsort)
 	if err != nil {
 		return "", err
